@@ -189,7 +189,7 @@ def run_check(pid, tier, seed):
                     a, b = st.canon_line(st.impl_lines[i], a), st.canon_line(st.impl_lines[i], b)
                 if a != b:
                     mism.append((i, st.impl_lines[i], io_raw[i] if st.role == "pycheck" else io[i], mo[i]))
-                if st.nontrivial is None or st.nontrivial(st.impl_lines[i], io[i]):
+                if st.nontrivial is None or st.nontrivial(st.impl_lines[i], io_raw[i]):
                     nt.add(st.impl_lines[i].split("\t", 1)[-1])
             nt_all |= nt
             distinct_nt = len(nt_all)
